@@ -8,7 +8,10 @@ RULE = ("E1: ALL task->machine assignments of catalogue DAGs (<=4 nodes) on "
         "second observation (1-2 machines, durations 1..3) and its workflow "
         "planned onto the same machines x delays <=1/2; oracle: machine of "
         "every allocation/do_work activation == machine recorded at planning "
-        "time and the plan entry never changes; non-trivial = a plan existed")
+        "time and the plan entry never changes; plus histories in which ONE "
+        "policy object drives two simulations with different static plans "
+        "(every ordered pair of distinct assignments of a small workflow; "
+        "quick: thinned to ~60 per DAG); non-trivial = a plan existed")
 
 
 def monitors_for(case):
@@ -64,6 +67,26 @@ def cases(tier, seed):
                             cc["cfg"] = dict(cfg, mids=world.percat_ids(M))
                             out.append(("S-static-M%d-percat-ids/%s"
                                         % (M, label), cc))
+    # one policy object drives two simulations whose static plans differ:
+    # every ordered pair of distinct assignments of a small workflow
+    for machines in (CLUSTERS[2][1], CLUSTERS[3][1]):
+        M = len(machines)
+        for label, wa in dags[:3] + ([dags[3]] if tier == "thorough" else []):
+            obs = [mkobs("a", 0, 1, 1, 1, 1, "wa")]
+            cfg = mkcfg(machines, obs, (100, 10), (100, 10), 2, 2)
+            case = mkcase(cfg, {"wa": wa})
+            asgs = common.scopes.assignments(case)
+            for kind in ("dynamic",):
+                pairs = [(a, b) for a in asgs for b in asgs if a != b]
+                if tier != "thorough":
+                    pairs = common.thin(pairs, max(1, len(pairs) // 60))
+                for a, b in pairs:
+                    first = dict(case, alg={"kind": kind, "assign": a,
+                                            "reuse": "p"})
+                    c = dict(case, alg={"kind": kind, "assign": b,
+                                        "reuse": "p"}, before=[first])
+                    out.append(("S-policy-object-reused-%s/%s"
+                                % (kind, label), c))
     return common.rotate(out, seed)
 
 
